@@ -40,6 +40,9 @@ def run_check(copy, prop, tier, out):
     p = subprocess.run([os.path.join(HERE, 'check'), prop, tier], cwd=HERE, capture_output=True, text=True, env=env, timeout=3600)
     keys = re.findall(r'mechanism=(\S+)', p.stdout)
     viol = re.findall(r'^VIOLATION property=(\S+)', p.stdout, re.M)
+    known = re.findall(r'^KNOWN-FINDING: property=\S+ key=(\S+)', p.stdout, re.M)
+    if known:
+        keys = keys + ['known:' + k for k in known]
     return p.returncode, viol, keys, round(time.time() - t0, 1), p.stdout[-600:]
 
 
